@@ -6,9 +6,10 @@
    Both are proved for the modelled library functions (non-vacuity).  On the code side they are what fix F13 (data
    helpers copy the count back) and the seeded mutant C09-m2 (arraySort swallowing the budget error) are about; the
    correspondence and the direct oracle exercise them on the real library. *)
-From Coq Require Import ZArith.
+From Coq Require Import ZArith List Lia.
 From BS Require Import Model.Base Model.Num Model.Arith Model.ExprParser Model.Script Model.Interp Model.LibCore Model.LibAll Model.LibPartial Model.Run Proofs.C09 Proofs.LibAll Proofs.LibPartial Proofs.C09term Proofs.C09termLib.
 From BS Require Import Proofs.C09termFull Proofs.C09termG Proofs.C09termFullG Proofs.C09termClosure.
+From BS Require Import Model.LibMore Model.LibCall Proofs.C09clInv Proofs.C09clLib Proofs.C09clSim Proofs.C09clTower Proofs.C09clMore.
 Local Open Scope Z_scope.
 
 (* EXACT (1): the limit is tested at the head of every statement, after counting it: with L statements started, statement
@@ -296,6 +297,145 @@ Theorem C09_fresh_closure_passes_the_guard : forall args w v w1 l,
   closure_ok w1 l = true.
 Proof. exact partial_new_guard. Qed.
 Print Assumptions C09_fresh_closure_passes_the_guard.
+
+(* (7) THE REACHABILITY INVARIANT (Proofs/C09clInv.v) and the clause for libfull2 itself.
+   [closures_wf w]: there is a set H of HIDDEN array locations such that
+     * every l in H is an array of w of the shape systemPartial gives: head :: bound1 :: ..., and a head that is a closure is a
+       closure of a SMALLER location (hence closure_ok w l, C09_invariant_gives_the_guard);
+     * every value stored in w (globals, cells of ALL arrays - the hidden ones too -, cells of objects) is [val_ok H #arrays]:
+         VArr l            : l < #arrays and l is NOT hidden  (no value names a hidden array; none dangles),
+         VFun (FLib [0;l]) : l is hidden,
+         VFun (FLib nm), nm no closure name : every code point of nm + 1 < 1114113 (what the lifting's numeral encoding of
+                             function values needs to give the name back; a forged name [1114113 + l] would come back as the closure l).
+   Both extra conditions are NEEDED: with a dangling `x = VArr 5` in the globals of an empty heap, the sixth array a script allocates
+   by systemPartial is named by x, and arraySet(x, 0, <that closure>) builds the self-referential hidden array of (5).
+   The invariant is inductive because no value names a hidden array, so no library function can be handed one to write into; from
+   state to state H only grows, by fresh locations (Proofs/C09clInv.v ext), and every val_ok value stays val_ok (val_ok_mono) - that
+   carries interpreter locals, argument lists in flight and the list arraySort is permuting. *)
+Theorem C09_closures_wf_spelled : forall w,
+  closures_wf w <->
+  exists H : nat -> Prop,
+    (forall l, H l -> exists f b bs, nth_error (w_arrs w) l = Some (f :: b :: bs) /\
+                      forall nm l', f = VFun (FLib nm) -> partial_loc nm = Some l' -> (l' < l)%nat) /\
+    Forall (fun p => val_ok H (length (w_arrs w)) (snd p)) (w_globals w) /\
+    Forall (Forall (val_ok H (length (w_arrs w)))) (w_arrs w) /\
+    Forall (Forall (fun p => val_ok H (length (w_arrs w)) (snd p))) (w_objs w).
+Proof. intros w. split; intros X; exact X. Qed.
+Print Assumptions C09_closures_wf_spelled.
+
+Theorem C09_val_ok_spelled : forall (H : nat -> Prop) na v,
+  val_ok H na v <->
+  match v with
+  | VArr l => (l < na)%nat /\ ~ H l
+  | VFun (FLib nm) => match partial_loc nm with Some l => H l | None => Forall (fun c => (c + 1 < 1114113)%N) nm end
+  | _ => True
+  end.
+Proof. intros H na v. destruct v; split; intros X; exact X. Qed.
+Print Assumptions C09_val_ok_spelled.
+
+(* (7.1) it holds of every world without closure values, dangling array references and ill-coded function names *)
+Theorem C09_closure_free_worlds_are_wf : forall w,
+  (let plain := fun v => match v with
+                         | VArr l => (l < length (w_arrs w))%nat
+                         | VFun (FLib nm) => partial_loc nm = None /\ Forall (fun c => (c + 1 < 1114113)%N) nm
+                         | _ => True end in
+   Forall (fun p => plain (snd p)) (w_globals w) /\ Forall (Forall plain) (w_arrs w) /\
+   Forall (Forall (fun p => plain (snd p))) (w_objs w)) ->
+  closures_wf w.
+Proof. intros w X. exists (fun _ => False). apply closure_free_wf. exact X. Qed.
+Print Assumptions C09_closure_free_worlds_are_wf.
+
+Example C09_example_initial_worlds_are_wf :
+  closures_wf (world0 []) /\
+  closures_wf (upd_arrs (world0 [(U "a", VArr 0); (U "f", VFun (FLib (U "arraySort"))); (U "n", VNum (NInt 3))]) [[VStr (U "x"); VArr 0]]).
+Proof.
+  split; apply C09_closure_free_worlds_are_wf; cbn; repeat constructor; cbn; try lia.
+Qed.
+
+(* (7.2) the invariant gives the guard of (6) at every hidden location *)
+Theorem C09_invariant_gives_the_guard : forall H w l, wf H w -> H l -> closure_ok w l = true.
+Proof. exact wf_closure_ok. Qed.
+Print Assumptions C09_invariant_gives_the_guard.
+
+(* (7.3) library functions that do not call back PRESERVE it: a later hidden set H' (ext), a well-formed world, a well-formed answer.
+   Proved for every function of LibCore (arrayPush / arraySet / objectSet / systemGlobalSet store argument values, which are
+   well-formed; they cannot be handed a hidden array), for systemPartial (the fresh hidden array joins H) and for every function of
+   LibMore (jsonParse allocates fresh arrays of plain values; the others answer numbers, strings, booleans, datetimes, null). *)
+Theorem C09_invariant_preserved_by_the_core_library : forall cfg (cb : caller) H name args w,
+  wf H w -> Forall (val_ok H (length (w_arrs w))) args ->
+  let r := libcore cfg cb name args w in
+  exists H', ext H (length (w_arrs w)) H' (length (w_arrs (snd r))) /\ wf H' (snd r) /\
+             match fst r with LVal v | LArgs v _ => val_ok H' (length (w_arrs (snd r))) v | _ => True end.
+Proof. intros cfg cb H name args w Hw Ha. exact (libcore_pres cfg cb H name args w Hw Ha). Qed.
+Print Assumptions C09_invariant_preserved_by_the_core_library.
+
+Theorem C09_invariant_preserved_by_systemPartial : forall H args w,
+  wf H w -> Forall (val_ok H (length (w_arrs w))) args ->
+  let r := lib_partial_new args w in
+  exists H', ext H (length (w_arrs w)) H' (length (w_arrs (snd r))) /\ wf H' (snd r) /\
+             match fst r with LVal v | LArgs v _ => val_ok H' (length (w_arrs (snd r))) v | _ => True end.
+Proof. intros H args w Hw Ha. exact (partial_new_pres H args w Hw Ha). Qed.
+Print Assumptions C09_invariant_preserved_by_systemPartial.
+
+Theorem C09_invariant_preserved_by_the_further_library : forall cfg H name args w,
+  wf H w -> Forall (val_ok H (length (w_arrs w))) args ->
+  let r := libmore cfg name args w in
+  exists H', ext H (length (w_arrs w)) H' (length (w_arrs (snd r))) /\ wf H' (snd r) /\
+             match fst r with LVal v | LArgs v _ => val_ok H' (length (w_arrs (snd r))) v | _ => True end.
+Proof. intros cfg H name args w Hw Ha. exact (libmore_pres cfg H name args w Hw Ha). Qed.
+Print Assumptions C09_invariant_preserved_by_the_further_library.
+
+(* (7.4) FULL statement (kept visible):
+       C09_terminates_combined_library : forall cfg cfg' url_rel lint_lines, 0 < c_max cfg -> forall sc w, closures_wf w ->
+         exists fuel r, (forall bot fuel', fuel <= fuel' -> execute_script_bot cfg (libfull2 cfg') url_rel lint_lines bot fuel' sc w = r)
+                        /\ closures_wf (snd r).
+   PROVED under ONE premise that is left, [seq_pres]: the lifted LibSeq functions (Model/LibAll.v lift_seq: the ~37 array / object /
+   string functions run on LibSeq's single heap after a change of representation) preserve the invariant - spelled out below.  Everything
+   else is proved: the invariant is preserved by eval / call / exec (Proofs/C09clTower.v, one lemma per body function), by LibCore,
+   systemPartial and LibMore (7.3), by arraySort with any comparator (Proofs/C09clSim.v lib_sort_sim: the list being permuted and the stop
+   reason are carried along the growing hidden set) and by the closure call (partial_call_sim: the guard holds by the invariant); along
+   it the run with libfull2 IS the run with the guarded libfull2g of (6).  Method: the guarded tower answers ORt poison at depth 0, the
+   unguarded one any bot; by induction on the fuel, from every well-formed state, "the guarded answer is ORt poison, or both answers
+   are equal and well-formed again"; poison passes through every construct unchanged, and at a fuel where the guarded run has settled
+   to an answer independent of its depth-0 answer a poison different from that answer excludes the first case. *)
+Theorem C09_seq_pres_spelled :
+  seq_pres <->
+  (forall cfg (H : nat -> Prop) name args w, wf H w -> Forall (val_ok H (length (w_arrs w))) args ->
+     let r := lift_seq cfg name args w in
+     exists H', ext H (length (w_arrs w)) H' (length (w_arrs (snd r))) /\ wf H' (snd r) /\
+                match fst r with LVal v | LArgs v _ => val_ok H' (length (w_arrs (snd r))) v | _ => True end).
+Proof. split; intros X; exact X. Qed.
+Print Assumptions C09_seq_pres_spelled.
+
+Theorem C09_terminates_combined_library_partial : seq_pres ->
+  forall cfg cfg' url_rel lint_lines, 0 < c_max cfg ->
+  forall sc w, closures_wf w ->
+  exists fuel r, (forall bot fuel', (fuel <= fuel')%nat ->
+                    execute_script_bot cfg (libfull2 cfg') url_rel lint_lines bot fuel' sc w = r) /\
+                 closures_wf (snd r).
+Proof. exact libfull2_run_terminates_seq. Qed.
+Print Assumptions C09_terminates_combined_library_partial.
+
+(* the step that makes the two runs coincide, for one library call (any callbacks in step): under the invariant the guarded and the
+   unguarded library give the same answer, well-formed again - or the guarded one passes the poison on *)
+Theorem C09_combined_library_in_step_with_guarded_partial : seq_pres ->
+  forall poison cfg cbT cbU,
+  (forall H fv a w, wf H w -> val_ok H (length (w_arrs w)) fv -> Forall (val_ok H (length (w_arrs w))) a ->
+     fst (cbT fv a w) = ORt poison \/
+     (cbU fv a w = cbT fv a w /\
+      exists H', ext H (length (w_arrs w)) H' (length (w_arrs (snd (cbT fv a w)))) /\ wf H' (snd (cbT fv a w)) /\
+                 match fst (cbT fv a w) with OVal v | OExc v _ => val_ok H' (length (w_arrs (snd (cbT fv a w)))) v | _ => True end)) ->
+  forall H name args w, wf H w -> val_ok H (length (w_arrs w)) (VFun (FLib name)) -> Forall (val_ok H (length (w_arrs w))) args ->
+  let rT := libfull2g cfg cbT name args w in
+  fst rT = LRt poison \/
+  (libfull2 cfg cbU name args w = rT /\
+   exists H', ext H (length (w_arrs w)) H' (length (w_arrs (snd rT))) /\ wf H' (snd rT) /\
+              match fst rT with LVal v | LArgs v _ => val_ok H' (length (w_arrs (snd rT))) v | _ => True end).
+Proof.
+  intros Hseq poison cfg cbT cbU Hcb H name args w Hw Hn Ha.
+  exact (libfull2_sim_seq Hseq poison cfg cbT cbU Hcb H name args w Hw Hn Ha).
+Qed.
+Print Assumptions C09_combined_library_in_step_with_guarded_partial.
 
 (* closures at work under maxStatements = 20: a closure of a closure over arraySort, called with a script comparator that logs
      function cmp(a, b): systemLog('c'); return b - a endfunction
